@@ -619,6 +619,7 @@ impl Server {
         let mut should_close = false;
         let mut timeout_check = false;
         let mut conn_closed = false;
+        let mut protocol_error: Option<String> = None;
         
         // First phase: read and parse with the lock
         let read_result = self.connections.with_connection(id, |conn| -> Result<()> {
@@ -669,9 +670,11 @@ impl Server {
                                         return Err(e);
                                     },
                                     _ => {
-                                        // Other parsing errors - log but don't immediately close connection
-                                        // This improves tolerance for pipelining edge cases
+                                        // The byte stream violates the protocol: it can never become
+                                        // valid again, so answer with an error and close (after the
+                                        // replies to the frames that preceded it)
                                         eprintln!("Parse warning for connection {}: {}", id, e);
+                                        protocol_error = Some(e.to_string());
                                         break;
                                     }
                                 }
@@ -790,6 +793,11 @@ impl Server {
                 }
             };
             responses.push(response);
+        }
+        
+        if let Some(msg) = protocol_error {
+            responses.push(RespFrame::error(format!("ERR {}", msg)));
+            should_close = true;
         }
         
         // Third phase: send responses with special handling for commands needing immediate delivery
